@@ -339,6 +339,11 @@ def sched_run(spec):
             if h is not None:
                 for op in a['ops']:
                     out.append(safe_op(h, op, ctx))
+            if a.get('linger'):
+                # the process has finished its operations but stays alive, idle, with its handle open, until every
+                # other process is done: report a pseudo event and wait for the scheduler
+                os.write(rw, b'0 idle -\n')
+                os.read(gr, 1)
             lib().fsg_mode(0)
             return out
         pid, result_r = fork_child(fn)
@@ -357,12 +362,21 @@ def sched_run(spec):
         live = [a for a in actors if not a.done]
         if not live:
             break
-        enabled = [a.idx for a in live if not a.blocked]
+        busy = [a for a in live if not (a.pending and a.pending[0] == 'idle')]
+        if not busy:
+            # only idle (lingering) processes are left: let them exit, lowest id first
+            act = live[0]
+            trace.append(((act.idx,), 0, 'exit', '-', False))
+            os.write(act.go_w, b'g')
+            act.next_report()
+            step += 1
+            continue
+        enabled = [a.idx for a in busy if not a.blocked]
         if not enabled:
             # everyone waits for somebody else's unlock: let the waiters retry (sqlite's busy handler would)
-            for a in live:
+            for a in busy:
                 a.blocked = False
-            enabled = [a.idx for a in live]
+            enabled = [a.idx for a in busy]
             deadlock = True
         # canonical order: the running actor first if still enabled, then ascending ids
         order = ([current] if current in enabled else []) + [i for i in enabled if i != current]
